@@ -105,7 +105,7 @@ fn field_name(bit: usize) -> &'static str {
 const N_VARS: u8 = 6;
 /// ±0, ±1, subnormal, ±inf, quiet and signalling NaNs with payloads 1, 0x2AAAAA, 0x3FFFFF, sign set
 const F32_BITS: [u32; 15] = [
-    0x3F80_0000, 0xBF80_0000, 0x8000_0000, // variant 0: 1, -1, -0
+    0x3F80_0000, 0xBF80_0000, 0x8000_0000, // variant 0: 1, -1, -0 (one row per variant; variant 2 is all +0)
     0x7FC0_0001, 0x7F80_0001, 0xFFC0_0001, // variant 1: qNaN(1), sNaN(1), -qNaN(1)
     0x0000_0001, 0x7F80_0000, 0xFF80_0000, // variant 3: subnormal, +inf, -inf
     0x7FEA_AAAA, 0x7FAA_AAAA, 0xFF80_0001, // variant 4: qNaN(2AAAAA), sNaN(2AAAAA), -sNaN(1)
@@ -143,7 +143,9 @@ fn typed_value(bit: usize, var: u8) -> Typed {
             _ => [b + var, b + var + 0x40, b + var + 0x80, b + var + 0xC0],
         }),
         1 => {
-            let k = bit - 37;
+            // the three members of a row rotate with the variant so that every f32 field meets a
+            // signalling NaN, a quiet NaN and a signed value in some variant
+            let k = (bit - 37 + var as usize) % 3;
             Typed::F32(match var {
                 0 => F32_BITS[k],
                 1 => F32_BITS[3 + k],
@@ -560,7 +562,7 @@ fn explore(ctx: &Ctx) -> Outcome {
     let thorough = ctx.tier == vcore::Tier::Thorough;
     let problems = self_check();
     let (pats, pat_counts) = patterns(if thorough { 3 } else { 2 });
-    let hdr_modes: usize = if thorough { 4 } else { 1 };
+    let hdr_modes: usize = 4;
 
     // family 1: presence sweep
     let per_pat = 4 * N_VARS as usize * 4 * hdr_modes;
@@ -576,8 +578,7 @@ fn explore(ctx: &Ctx) -> Outcome {
             r /= N_VARS as usize;
             let cx = (r % 4) as u8;
             r /= 4;
-            // quick tier: the header word rotates; thorough tier: all four
-            let hdr = if hdr_modes == 4 { HDRS[r] } else { HDRS[(pi + name as usize + var as usize + cx as usize) % 4] };
+            let hdr = HDRS[r];
             let c = Case { fam: "presence-sweep".into(), hdr, specs: embed(SpecDesc { name, bits: pats[pi], var }, cx) };
             run_case(&c, &mut t);
             t
@@ -624,7 +625,7 @@ fn explore(ctx: &Ctx) -> Outcome {
     }
     let fam_counts: serde_json::Map<String, Value> = total.classes.iter().filter(|(k, _)| k.starts_with("family:")).map(|(k, v)| (k["family:".len()..].to_string(), json!(v))).collect();
     let mut o = total.into_outcome(
-        "every AssetBinary of two families is serialized, re-read (BinArchive::from_bytes + AssetBinary::from_archive), compared field-wise, its image walked record by record, and re-serialized: (1) presence sweep — EVERY pattern over the 51 presence bits with ≤2 bits set, EVERY pattern with ≤2 bits clear (≤3 at the thorough tier) and, for each of the 7 flag bytes, ALL combinations of its field bits against an all-absent and an all-present background, each × name {Some(\"n\"), None, Some(\"\"), Some(\"名前\")} × 6 value variants (unique ASCII strings and byte-distinct words / empty, multi-byte and half-width strings with quiet and signalling NaN payloads / all-zero values and empty strings / unique non-ASCII strings, subnormal and infinities / one repeated string / strings equal to spec names) × 4 embeddings (alone, first, last, in the middle followed by the all-absent unnamed spec), header word rotating over {0,1,0x01020304,0xFFFFFFFF} (all four at the thorough tier); odd variants put junk into the value of every ABSENT typed field; (2) ALL sequences of 0..=3 specs from six shapes (all-absent unnamed, all-absent named, short with strings, extended typed-only unnamed, all-present, extended by one string with empty name) × 4 header words × 6 variant shifts. non-trivial = some spec has a field present",
+        "every AssetBinary of two families is serialized, re-read (BinArchive::from_bytes + AssetBinary::from_archive), compared field-wise, its image walked record by record, and re-serialized: (1) presence sweep — EVERY pattern over the 51 presence bits with ≤2 bits set, EVERY pattern with ≤2 bits clear (≤3 at the thorough tier) and, for each of the 7 flag bytes, ALL combinations of its field bits against an all-absent and an all-present background, each × name {Some(\"n\"), None, Some(\"\"), Some(\"名前\")} × 6 value variants (unique ASCII strings and byte-distinct words / empty, multi-byte and half-width strings with quiet and signalling NaN payloads / all-zero values and empty strings / unique non-ASCII strings, subnormal and infinities / one repeated string / strings equal to spec names) × 4 embeddings (alone, first, last, in the middle followed by the all-absent unnamed spec) × header word {0,1,0x01020304,0xFFFFFFFF}; odd variants put junk into the value of every ABSENT typed field; (2) ALL sequences of 0..=3 specs from six shapes (all-absent unnamed, all-absent named, short with strings, extended typed-only unnamed, all-present, extended by one string with empty name) × 4 header words × 6 variant shifts. non-trivial = some spec has a field present",
         true,
         vec![
             ("families", Value::Object(fam_counts)),
